@@ -1065,6 +1065,153 @@ func (c *Ctx) ruleChan(rule string) {
 			}
 		}
 	}
+	// (a') the join is only worth something if a goroutine's reports precede its Done: once the last Done is through,
+	// the closer may close the channel. A send that can run after the goroutine's own Done - in the code behind a
+	// direct Done call, in a deferred function that was registered before a deferred Done (defers run last-in
+	// first-out), or in the caller after the function that releases the WaitGroup has returned - is a send on a
+	// channel that may be closed.
+	sendFns := map[*ssa.Function]bool{}
+	for _, sd := range sends {
+		sendFns[sd.fn] = true
+	}
+	reachesSend := func(f *ssa.Function) bool {
+		for g := range c.reachSync(f) {
+			if sendFns[g] {
+				return true
+			}
+		}
+		return false
+	}
+	// instructions of fn that can execute after `after` (CFG order), as a predicate
+	canFollow := func(fn *ssa.Function, after ssa.Instruction) func(ssa.Instruction) bool {
+		reach := map[*ssa.BasicBlock]bool{}
+		var walk func(b *ssa.BasicBlock)
+		walk = func(b *ssa.BasicBlock) {
+			for _, sc := range b.Succs {
+				if !reach[sc] {
+					reach[sc] = true
+					walk(sc)
+				}
+			}
+		}
+		walk(after.Block())
+		return func(in ssa.Instruction) bool {
+			if in.Block() == after.Block() {
+				seenAfter := false
+				for _, x := range after.Block().Instrs {
+					if x == after {
+						seenAfter = true
+						continue
+					}
+					if x == in {
+						return seenAfter || reach[in.Block()]
+					}
+				}
+			}
+			return reach[in.Block()]
+		}
+	}
+	sendLike := func(in ssa.Instruction) bool {
+		switch x := in.(type) {
+		case *ssa.Send:
+			return c.isFieldLoad(x.Chan, ro.serverT, ro.errChan)
+		case *ssa.Select:
+			for _, st := range x.States {
+				if st.Dir == types.SendOnly && c.isFieldLoad(st.Chan, ro.serverT, ro.errChan) {
+					return true
+				}
+			}
+		case *ssa.Call:
+			for _, callee := range c.M.Callees(&x.Call) {
+				if reachesSend(callee) {
+					return true
+				}
+			}
+		}
+		return false
+	}
+	nDone := 0
+	var checkAfter func(fn *ssa.Function, release ssa.Instruction, deferred bool, depth int) string
+	checkAfter = func(fn *ssa.Function, release ssa.Instruction, deferred bool, depth int) string {
+		follows := canFollow(fn, release)
+		for _, b := range fn.Blocks {
+			for _, in := range b.Instrs {
+				if d, ok := in.(*ssa.Defer); ok && in != release {
+					sendsLater := false
+					for _, callee := range c.M.Callees(d.Common()) {
+						if reachesSend(callee) {
+							sendsLater = true
+						}
+					}
+					if !sendsLater {
+						continue
+					}
+					// a deferred sender runs after a direct release; after a deferred release iff it was registered first
+					if !deferred || canFollow(fn, in)(release) {
+						return "the deferred function registered at " + c.M.InstrPos(in) + " can report on " + chName + " and runs after the release at " + c.M.InstrPos(release)
+					}
+					continue
+				}
+				if !deferred && follows(in) && sendLike(in) {
+					return "the report at " + c.M.InstrPos(in) + " can run after the release at " + c.M.InstrPos(release)
+				}
+			}
+		}
+		if depth >= 3 {
+			return ""
+		}
+		// what the same goroutine does after fn has returned
+		for _, g := range c.M.Funcs {
+			for _, b := range g.Blocks {
+				for _, in := range b.Instrs {
+					call, ok := in.(*ssa.Call)
+					if !ok {
+						continue
+					}
+					for _, callee := range c.M.Callees(&call.Call) {
+						if callee == fn {
+							if why := checkAfter(g, call, false, depth+1); why != "" {
+								return why
+							}
+						}
+					}
+				}
+			}
+		}
+		return ""
+	}
+	for _, fn := range c.M.SortedFuncs(c.scopePkg("atp")) {
+		cnt := 0
+		for _, b := range fn.Blocks {
+			for _, in := range b.Instrs {
+				var cc *ssa.CallCommon
+				deferred := false
+				switch x := in.(type) {
+				case *ssa.Call:
+					cc = &x.Call
+				case *ssa.Defer:
+					cc, deferred = &x.Call, true
+				default:
+					continue
+				}
+				if _, ok := c.wgOfCall(cc, "Done"); !ok || !c.methodOrClosureOf(fn, ro.serverT) {
+					continue
+				}
+				nDone++
+				cnt++
+				k := key(rule, c.M.Key(fn), sprintf("WaitGroup.Done #%d: no report on %s can follow it in this goroutine", cnt, chName))
+				if why := checkAfter(fn, in, deferred, 0); why == "" {
+					c.R.Ok(rule, k, c.M.InstrPos(in), "release of the session WaitGroup", "nothing that can send on "+chName+" runs after it: not the code behind it, not a deferred function (a deferred Done runs after every defer registered later, before every defer registered earlier), not the callers after the function has returned")
+				} else {
+					c.R.Bad(rule, k, c.M.InstrPos(in), "a goroutine can report on "+chName+" after it has released the session WaitGroup",
+						why+": once the last Done is through, the closer closes the channel; the late report is a send on a closed channel (it kills the plugin process - inside a deferred function while panicking nothing recovers it) or is lost")
+				}
+			}
+		}
+	}
+	if nDone == 0 {
+		c.R.Unresolved(rule, "WaitGroup.Done calls of the server session's goroutines")
+	}
 	// (b) the receiver loop must only stop when the channel is closed
 	for _, sel := range recvLoops {
 		fn := sel.Parent()
